@@ -163,9 +163,17 @@ where
     C: MessageEncoder<Item> + MessageDecoder<Item> + Clone + Send + Sync + Unpin + 'static,
     Item: Payload + std::fmt::Debug,
 {
-    let size = case["size"].as_u64().unwrap() as u32;
-    let elapses = case["elapses"].as_bool().unwrap();
-    let ops: Vec<String> = case["ops"].as_array().unwrap().iter().map(|v| v.as_str().unwrap().to_string()).collect();
+    let mut size = case["size"].as_u64().unwrap() as u32;
+    let mut elapses = case["elapses"].as_bool().unwrap();
+    let mut ops: Vec<String> = case["ops"].as_array().unwrap().iter().map(|v| v.as_str().unwrap().to_string()).collect();
+    // burst variant: a long run of feed()s of 8 KiB items while the subscriber is not reading, so
+    // that the transport pushes back on the publisher; everything must still arrive after finish()
+    let burst = case["burst"].as_bool().unwrap_or(false);
+    if burst {
+        size = size.max(2) * 8;
+        elapses = false;
+        ops = std::iter::repeat("feed".to_string()).take(400).chain(std::iter::once("finish".to_string())).collect();
+    }
     log.emit("case", json!({"run": run, "size": size, "elapses": elapses, "comp": comp, "codec": std::any::type_name::<Item>(), "nops": ops.len(), "big": big}));
 
     let mut sb = client.subscriber(topic).with_decoder(codec.clone());
@@ -176,8 +184,14 @@ where
     // The subscriber is consumed by a task of its own, woken only by the subscriber's own wakers:
     // wrapping `next()` in a timeout would re-poll it when the timer fires and mask a lost wake-up.
     let (item_tx, mut sub) = tokio::sync::mpsc::unbounded_channel::<Option<selium::std::errors::Result<Item>>>();
+    let gate = std::sync::Arc::new((std::sync::atomic::AtomicBool::new(false), tokio::sync::Notify::new()));
+    let gate2 = gate.clone();
     let reader = tokio::spawn(async move {
         loop {
+            // a subscriber that is momentarily not reading (back-pressure towards the publisher)
+            while gate2.0.load(std::sync::atomic::Ordering::SeqCst) {
+                gate2.1.notified().await;
+            }
             let it = sub_stream.next().await;
             let end = it.is_none();
             if item_tx.send(it).is_err() || end {
@@ -233,18 +247,40 @@ where
     }
     let mut publisher = Some(pb.open().await?);
     let mut sent: Vec<Item> = vec![];
+    if burst {
+        gate.0.store(true, std::sync::atomic::Ordering::SeqCst);
+    }
     for op in &ops {
+        if burst && op == "finish" {
+            gate.0.store(false, std::sync::atomic::Ordering::SeqCst);
+            gate.1.notify_waiters();
+        }
         if elapses {
             tokio::time::sleep(Duration::from_millis(4)).await;
         }
         match op.as_str() {
             "send" | "feed" => {
                 let i = sent.len() as u64 + 1;
-                let psize = if big { rng.gen_range(100_000..300_000) } else { rng.gen_range(0..200) };
+                let psize = if burst { 8192 } else if big { rng.gen_range(100_000..300_000) } else { rng.gen_range(0..200) };
                 let item = Item::make(i, psize, rng);
                 sent.push(item.clone());
                 let p = publisher.as_mut().unwrap();
-                let r = if op == "send" { p.send(item).await } else { p.feed(item).await };
+                let r = if op == "send" {
+                    p.send(item).await
+                } else if burst {
+                    // with the subscriber paused a correct publisher may legitimately wait here:
+                    // let the subscriber read again after a while
+                    match tokio::time::timeout(Duration::from_millis(300), p.feed(item.clone())).await {
+                        Ok(r) => r,
+                        Err(_) => {
+                            gate.0.store(false, std::sync::atomic::Ordering::SeqCst);
+                            gate.1.notify_waiters();
+                            p.feed(item).await
+                        }
+                    }
+                } else {
+                    p.feed(item).await
+                };
                 log.emit("pub_op", json!({"op": op, "i": i, "res": if r.is_ok() { "ok".to_string() } else { format!("err: {}", r.unwrap_err()) }}));
             }
             "finish" => {
@@ -314,12 +350,16 @@ async fn cmd_pubsub(args: Vec<String>) -> Result<()> {
                 let comp = COMPRESSIONS[(run as usize + seed as usize) % COMPRESSIONS.len()];
                 let topic = format!("/verif{}/case{}", seed % 1000, run);
                 let big = run % 23 == 0;
+                let mut case = cases[k].clone();
+                if run % 12 == 5 && case["size"].as_u64().unwrap_or(0) > 0 {
+                    case["burst"] = json!(true);
+                }
                 // a private log per case keeps its events contiguous in the trace
                 let clog = EvLog::new(Box::new(std::io::sink()));
                 let r = match run % 3 {
-                    0 => pubsub_case::<StringCodec, String>(&client, &clog, run, &cases[k], StringCodec, comp, &topic, &mut rng, big).await,
-                    1 => pubsub_case::<BytesCodec, Vec<u8>>(&client, &clog, run, &cases[k], BytesCodec, comp, &topic, &mut rng, big).await,
-                    _ => pubsub_case::<BincodeCodec<Sample>, Sample>(&client, &clog, run, &cases[k], BincodeCodec::default(), comp, &topic, &mut rng, big).await,
+                    0 => pubsub_case::<StringCodec, String>(&client, &clog, run, &case, StringCodec, comp, &topic, &mut rng, big).await,
+                    1 => pubsub_case::<BytesCodec, Vec<u8>>(&client, &clog, run, &case, BytesCodec, comp, &topic, &mut rng, big).await,
+                    _ => pubsub_case::<BincodeCodec<Sample>, Sample>(&client, &clog, run, &case, BincodeCodec::default(), comp, &topic, &mut rng, big).await,
                 };
                 if let Err(e) = r {
                     clog.emit("harness_error", json!({"err": e.to_string()}));
